@@ -141,8 +141,9 @@ type Step struct {
 	Version string            `json:"version,omitempty"` // value of the build-time version string
 	NoVer   bool              `json:"no_version,omitempty"`
 	Plan    simrt.Plan        `json:"plan"`
-	Plain   bool              `json:"plain,omitempty"`    // run the uninstrumented twin
-	Race    bool              `json:"race,omitempty"`     // run the instrumented binary built with the race detector
+	Plain   bool              `json:"plain,omitempty"` // run the uninstrumented twin
+	Race    bool              `json:"race,omitempty"`
+	NoFile  int               `json:"nofile,omitempty"`   // RLIMIT_NOFILE of the child (0 = inherited)     // run the instrumented binary built with the race detector
 	ExePath string            `json:"exe_path,omitempty"` // run a private copy of the binary at this path (relative to the sandbox root)
 	UnsetCI bool              `json:"unset_ci,omitempty"`
 }
@@ -446,6 +447,10 @@ func (sb *Sandbox) Run(st Step) Result {
 		bin = filepath.Join(sb.W, st.ExePath)
 	}
 	cmd := exec.Command(bin, st.Argv...)
+	if st.NoFile > 0 {
+		// resource fault: the child runs under a low limit of open files
+		cmd = exec.Command("/bin/sh", append([]string{"-c", fmt.Sprintf("ulimit -n %d && exec \"$0\" \"$@\"", st.NoFile), bin}, st.Argv...)...)
+	}
 	cmd.Dir = filepath.Join(sb.W, st.Cwd)
 	env := []string{
 		"PATH=/usr/bin:/bin",
@@ -459,6 +464,11 @@ func (sb *Sandbox) Run(st Step) Result {
 	}
 	if !st.UnsetCI {
 		env = append(env, "CI=true")
+	}
+	if st.NoFile > 0 {
+		// no garbage collection: a handle that is merely dropped is never closed by a finalizer (a legal behaviour of the runtime),
+		// so a leak exhausts the limit deterministically instead of depending on when the collector happens to run
+		env = append(env, "GOGC=off")
 	}
 	if !st.NoVer {
 		v := st.Version
